@@ -155,6 +155,10 @@ def parse_log(log, res, data):
             if cur is not None:
                 cur["test_after"] = ev[1]
         elif k == "solve":
+            if mu_cur is None and ev[2].shape == (dim, n):  # the location did not pass through np.array: recover it from diffs = data - mu
+                mu_cur = np.median(data.T - ev[2], axis=1)
+                if mu0 is None:
+                    mu0 = mu_cur
             cur = {"Sigma_in": ev[1], "diffs": ev[2], "mu_in": mu_cur, "psi": [], "bisect": None, "delta": None, "mu_out": None,
                    "test_before": tests[-1] if tests else None, "test_after": None}
             its.append(cur)
@@ -464,7 +468,8 @@ def step_conformance(run, X):
     for k, it in enumerate(run["its"], start=1):
         r = {}
         S_in, diffs, mu_in, delta = it["Sigma_in"], it["diffs"], it["mu_in"], it["delta"]
-        centred = mu_in is not None and diffs.shape == (p, n) and np.array_equal(diffs, X.T - mu_in.reshape(-1, 1))
+        centred = mu_in is not None and diffs.shape == (p, n) and bool(
+            np.all(np.abs(diffs - (X.T - mu_in.reshape(-1, 1))) <= 4 * EPS * (np.abs(X.T) + np.abs(mu_in.reshape(-1, 1)))))
         dok = False
         if centred and delta is not None and delta.shape == (n,):
             try:
